@@ -31,6 +31,7 @@ the held-out copies, stackers and the train/label collectors stay off it).
 import ForML.Lemmas.C03WrapSpec
 import ForML.Lemmas.C03MapReduce
 import ForML.Lemmas.C03Stack
+import ForML.Lemmas.C03Api
 
 namespace ForML.Compose
 
@@ -46,6 +47,8 @@ mutual
     | .wrap .. => true
     | .mapreduce ms _ => !ms.isEmpty
     | .stack bases n _ _ _ _ => !bases.isEmpty && decide (2 ≤ n) && Expr.trainableAll bases
+    | .api (.monitor a) => a.stateful
+    | .api _ => true
 
   def Expr.trainableAll : List Expr → Bool
     | [] => true
@@ -59,6 +62,7 @@ def Expr.stackFree : Expr → Bool
   | .debug .. => true
   | .wrap .. => true
   | .mapreduce .. => true
+  | .api .. => true
 
 def Expr.isStack : Expr → Bool
   | .stack .. => true
@@ -73,6 +77,7 @@ def Expr.shallow : Expr → Bool
   | .debug .. => true
   | .wrap .. => true
   | .mapreduce .. => true
+  | .api .. => true
 
 /-- the graphs composed for `e` evaluate to the denotation of `e` -/
 def Coherent (e : Expr) : Prop :=
@@ -146,12 +151,19 @@ private theorem realisesSF : ∀ (e : Expr), e.stackFree = true → e.trainable 
       exact spec_seq hs hm
     · rw [expand, denoteC_seq_origin]
       exact hm
+  | .api op, _, htr, full => by
+    have hop : ∀ a, op = .monitor a → a.stateful = true := by
+      intro a e; subst e; simpa [Expr.trainable] using htr
+    refine ⟨fun scope S hs => ?_, ?_⟩
+    · rw [compose, denoteC]; exact spec_api hs op hop
+    · rw [expand, denoteC]; exact spec_api spec_new op hop
   | .stack .., hsf, _, _ => by simp [Expr.stackFree] at hsf
 
 private theorem shallow_of_stackFree : ∀ (e : Expr), e.stackFree = true → e.shallow = true
   | .wrap .., _ => rfl
   | .mapreduce .., _ => rfl
   | .debug .., _ => rfl
+  | .api .., _ => rfl
   | .stack .., h => by simp [Expr.stackFree] at h
   | .seq l r, h => by
     have h' : l.stackFree = true ∧ r.stackFree = true := by simpa [Expr.stackFree] using h
@@ -178,6 +190,9 @@ mutual
       exact ⟨fun scope S hs _ => h.1 scope S hs, h.2⟩
     | .debug a t, htr => by
       have h := realisesSF (.debug a t) rfl htr True
+      exact ⟨fun scope S hs _ => h.1 scope S hs, h.2⟩
+    | .api op, htr => by
+      have h := realisesSF (.api op) rfl htr True
       exact ⟨fun scope S hs _ => h.1 scope S hs, h.2⟩
     | .stack bases n sp ap st rd, htr => by
       have htr' : (bases ≠ [] ∧ 2 ≤ n) ∧ Expr.trainableAll bases = true := by
@@ -412,6 +427,23 @@ theorem C03_independent_expansions (e : Expr) (htr : e.trainable = true)
     unfold trainedUnder
     rw [(old _ l1').2, (old _ l2').2]
 
+/-- **`Trunk.extend` keeps an omitted segment as it is** — head *and tail*: whatever has been subscribed to the tail of a
+segment in the meantime (an untrained side branch tapping the train features, say), a segment the operator does not
+supply to `left.extend(...)` is handed on unchanged (`Trunk.use` likewise, by definition: `Option.getD`). This is what
+makes `C03_coherence` hold for operators written against the composition API that extend only some of the segments. -/
+theorem C03_trunk_extend_omitted (t : Trunk) (a tr l : Option Segment) (g : Graph) (t' : Trunk) (g' : Graph)
+    (h : Run (t.extend a tr l) g t' g') :
+    (a = none → t'.apply = t.apply) ∧ (tr = none → t'.train = t.train) ∧ (l = none → t'.label = t.label) :=
+  trunk_extend_omitted t a tr l g t' g' h
+
+/-- the family of operators written against the composition API (`ApiOp`: `Trunk.extend` / `Trunk.use` with any subset of
+segments supplied, labels rewritten from the train features through an untrained side branch, a trained side branch, an
+untrained sink on the train tail) realises its hand-written denotation on any certified scope — and hands on a
+copyable region -/
+theorem C03_api_realises (op : ApiOp) (hop : ∀ a, op = .monitor a → a.stateful = true) (scope : GraphM Trunk) (S : Scope)
+    (hs : Spec True scope S) : Spec True (composeApi op scope) (denoteApi op S) :=
+  spec_api hs op hop
+
 /-- refusal branch: a debug operator whose train-mode actor is stateless cannot be composed (`Worker.train` raises
 `TopologyError('Stateless node training')`), whatever precedes it -/
 theorem C03_debug_stateless_refused (a t : Actor) (ht : t.stateful = false) (scope : GraphM Trunk) (g : Graph)
@@ -466,6 +498,18 @@ contains the first one -/
 example : Coherent (.seq (.seq (.wrap none (some ⟨1, true⟩) (some ⟨1, true⟩))
       (.stack [.wrap none (some ⟨2, true⟩) (some ⟨2, true⟩)] 2 3 4 5 6))
     (.stack [.stack [.wrap none (some ⟨7, true⟩) (some ⟨7, true⟩)] 2 8 9 10 11] 2 12 13 14 15)) :=
+  C03_coherence _ (by decide)
+
+/-- operators written against the composition API: `mapper >> labelMix >> mapper` (the labels of the second mapper are
+rewritten from the first mapper's train output; its features are not), and a mixture with every form, also inside an
+ensemble -/
+example : Coherent (.seq (.wrap none (some ⟨1, true⟩) (some ⟨1, true⟩))
+    (.seq (.api (.labelMix 2)) (.wrap none (some ⟨3, true⟩) (some ⟨3, true⟩)))) :=
+  C03_coherence _ (by decide)
+
+example : Coherent (.seq (.seq (.api (.extend (some 1) none (some 2) false)) (.api (.monitor ⟨3, true⟩)))
+    (.stack [.seq (.api (.tee 4)) (.seq (.api (.extend none (some 5) none true)) (.wrap none (some ⟨6, true⟩) (some ⟨6, true⟩)))]
+      2 7 8 9 10)) :=
   C03_coherence _ (by decide)
 
 end ForML.Compose
